@@ -488,7 +488,17 @@ def r18_7(ctx: Ctx):
         if nonempty and canon(e.value) == f"{src}[{k}]" and norm(e.key) == k:
             st = OK
         elif not g.ifs:
-            st, why = VIOLATION, "get_seeds returns parents whose candidates were all filtered out: such a deme counts as having sprouted and stays awake"
+            # the keys may come from a pre-filtered collection of the parents that still have candidates
+            srcs = defs.get(norm(g.iter), []) if isinstance(g.iter, ast.Name) else []
+            if isinstance(g.iter, (ast.SetComp, ast.ListComp, ast.GeneratorExp)):
+                srcs = [g.iter]
+            elif isinstance(g.iter, ast.Call) and norm(g.iter.func) in ("sorted", "list", "tuple") and g.iter.args and isinstance(g.iter.args[0], (ast.SetComp, ast.ListComp, ast.GeneratorExp)):
+                srcs = [g.iter.args[0]]
+            prefiltered = any(isinstance(d, (ast.SetComp, ast.ListComp, ast.GeneratorExp)) and any(".individuals" in norm(c) for gg in d.generators for c in gg.ifs) for d in srcs)
+            if prefiltered:
+                st = OK
+            elif canon(g.iter).removesuffix(".keys()") in defs or isinstance(g.iter, ast.Call):
+                st, why = VIOLATION, "get_seeds returns parents whose candidates were all filtered out: such a deme counts as having sprouted and stays awake"
     elif isinstance(e, ast.Name) or (isinstance(e, ast.Call) and norm(e.func) == "dict" and len(e.args) == 1 and isinstance(e.args[0], ast.Name)):
         nm = e.id if isinstance(e, ast.Name) else e.args[0].id
         last = defs.get(nm, [])
